@@ -779,7 +779,7 @@ class AASDataChecker(DataChecker):
         self.check_contained_element_length(object_, 'specific_asset_id', model.SpecificAssetId,
                                             len(expected_value.specific_asset_id))
         self._check_specific_asset_ids_equal(object_.specific_asset_id, expected_value.specific_asset_id, object_)
-        self.check_attribute_equal(object_, 'asset_type', object_.asset_type)
+        self.check_attribute_equal(object_, 'asset_type', expected_value.asset_type)
         if object_.default_thumbnail and expected_value.default_thumbnail:
             self.check_resource_equal(object_.default_thumbnail, expected_value.default_thumbnail)
         else:
